@@ -26,7 +26,7 @@ def units(tier):
     # whole images: open what the library wrote and write it again - byte for byte the same (ISO9660, XA, Rock Ridge incl. names and
     # symbolic links spread over several entries and continuation areas, relocation, Joliet, UDF), file contents symbolic
     from contracts import fidelity as F
-    for s in sorted(F.SCRIPTS_ALL):
+    for s in sorted(F.SCRIPTS_ALL) + F.random_names(tier):
         us.append(Unit(F.Reopened, {'script': s, 'edit': False}))
     for s in sorted(F.UDF_SCRIPTS):
         us.append(Unit(F.ReopenedUDF, {'script': s}))
